@@ -14,6 +14,7 @@ import (
 	"regexp"
 	"sort"
 	"strings"
+	"time"
 
 	"github.com/taskctl/taskctl/internal/config"
 	"github.com/taskctl/taskctl/internal/vh/common"
@@ -250,9 +251,12 @@ func runBinary(c graphCase, dir string) (string, string) {
 	cmd := exec.Command(os.Getenv("VERIF_TASKCTL"), "-c", file, "graph", "p")
 	cmd.Env = []string{"HOME=" + dir, "PATH=/usr/bin:/bin"}
 	cmd.Dir = dir
-	out, err := cmd.CombinedOutput()
+	out, err, hung := common.RunWithTimeout(cmd, 60*time.Second)
 	cyc := c.cyclic()
 	text := string(out)
+	if hung {
+		return "hang", "taskctl graph did not exit within 60 s: " + common.HangSummary(text)
+	}
 	if strings.Contains(text, "panic:") || strings.Contains(text, "fatal error:") {
 		return "crash", "taskctl graph crashed: " + text
 	}
